@@ -1,11 +1,13 @@
 /-
   C15 helper lemmas, part 2: the invariant of the executor + task system and its preservation by every
-  state transformer of the model.  `InvX none` is the invariant at a step boundary; `InvX (some t)` is
+  state transformer of the model.  `InvX ab none` is the invariant at a step boundary; `InvX ab (some t)` is
   what holds while task `t` is being polled (its slot is occupied and it is exempt from the
   "in the queue or blocked" clause until its poll returns).
 -/
 import YashModel.Executor.Lemmas
 namespace YashModel.Executor
+
+variable {ab : Bool}
 
 /-- Task `t`, whose future still has `acts` to do, waits for a wake-up that has not happened: it is
     registered with a channel that has no token, or its waker is stored in the relay of the child it
@@ -14,7 +16,7 @@ def Blocked (s : State) (t : Nat) (acts : Script) : Prop :=
   (∃ k rest, acts = .wait k :: rest ∧ t ∈ s.waiters k ∧ s.tokens k = 0) ∨
   (∃ c cs rest, acts = .join :: rest ∧ s.kids t = c :: cs ∧ s.relay c = .polled t)
 
-structure InvX (r : Option Nat) (s : State) : Prop where
+structure InvX (ab : Bool) (r : Option Nat) (s : State) : Prop where
   nodup : s.queue.Nodup
   qlt : ∀ x, x ∈ s.queue → x < s.ntasks
   wlt : ∀ k x, x ∈ s.waiters k → x < s.ntasks
@@ -25,29 +27,31 @@ structure InvX (r : Option Nat) (s : State) : Prop where
   sync : ∀ c, c < s.ntasks → (s.fut c = none ↔ (s.relay c).sent = true)
   fresh : ∀ c, s.ntasks ≤ c → s.relay c = .pending
   deliv : ∀ c, s.delivered c = if s.relay c = .done then 1 else 0
-  live : ∀ t acts, t < s.ntasks → r ≠ some t → s.fut t = some acts → t ∈ s.queue ∨ Blocked s t acts
+  /-- `ab` = some waker has been thrown away or the executor dropped: tasks may have been abandoned on
+      purpose, the clause is then not claimed -/
+  live : ∀ t acts, ab = false → t < s.ntasks → r ≠ some t → s.fut t = some acts → t ∈ s.queue ∨ Blocked s t acts
   run : ∀ t, r = some t → t < s.ntasks ∧ ∃ acts, s.fut t = some acts
   nobad : s.bad = false
 
 /-! ### transformers that touch only the queue or only ghost fields -/
 
-theorem inv_queue {r : Option Nat} {s : State} (h : InvX r s) (q : List Nat) (hn : q.Nodup)
+theorem inv_queue {r : Option Nat} {s : State} (h : InvX ab r s) (q : List Nat) (hn : q.Nodup)
     (hlt : ∀ x, x ∈ q → x < s.ntasks) (hsub : ∀ x, x ∈ s.queue → x ∈ q) :
-    InvX r { s with queue := q } :=
+    InvX ab r { s with queue := q } :=
   ⟨hn, hlt, h.wlt, h.plt, h.kid, h.knodup, h.kdone, h.sync, h.fresh, h.deliv,
-   fun t acts ht hr hf => (h.live t acts ht hr hf).elim (fun hq => Or.inl (hsub t hq)) Or.inr,
+   fun t acts hab ht hr hf => (h.live t acts hab ht hr hf).elim (fun hq => Or.inl (hsub t hq)) Or.inr,
    h.run, h.nobad⟩
 
-theorem inv_wake {r : Option Nat} {s : State} (h : InvX r s) (w : Nat) (hw : w < s.ntasks) :
-    InvX r (wake s w) := by
+theorem inv_wake {r : Option Nat} {s : State} (h : InvX ab r s) (w : Nat) (hw : w < s.ntasks) :
+    InvX ab r (wake s w) := by
   refine inv_queue h (enq s.queue w) (nodup_enq _ _ h.nodup) ?_ (fun x hx => mem_enq_of_mem _ _ _ hx)
   intro x hx
   rcases (mem_enq_iff _ _ _).mp hx with hx | rfl
   · exact h.qlt x hx
   · exact hw
 
-theorem inv_wakeAll {r : Option Nat} {s : State} (h : InvX r s) (ws : List Nat)
-    (hw : ∀ w, w ∈ ws → w < s.ntasks) : InvX r (wakeAll s ws) := by
+theorem inv_wakeAll {r : Option Nat} {s : State} (h : InvX ab r s) (ws : List Nat)
+    (hw : ∀ w, w ∈ ws → w < s.ntasks) : InvX ab r (wakeAll s ws) := by
   refine inv_queue h (ws.foldl enq s.queue) (nodup_foldl_enq _ _ h.nodup) ?_
     (fun x hx => (mem_foldl_enq _ _ _).mpr (Or.inl hx))
   intro x hx
@@ -55,19 +59,19 @@ theorem inv_wakeAll {r : Option Nat} {s : State} (h : InvX r s) (ws : List Nat)
   · exact h.qlt x hx
   · exact hw x hx
 
-theorem inv_logEv {r : Option Nat} {s : State} (h : InvX r s) (e : Ev) : InvX r (logEv s e) :=
+theorem inv_logEv {r : Option Nat} {s : State} (h : InvX ab r s) (e : Ev) : InvX ab r (logEv s e) :=
   ⟨h.nodup, h.qlt, h.wlt, h.plt, h.kid, h.knodup, h.kdone, h.sync, h.fresh, h.deliv, h.live, h.run,
    h.nobad⟩
 
 /-! ### channel actions -/
 
 /-- `wait k` with a token -/
-theorem inv_consume {r : Option Nat} {s : State} (h : InvX r s) (k : Nat) (hk : 0 < s.tokens k) :
-    InvX r { s with tokens := upd s.tokens k (s.tokens k - 1) } := by
+theorem inv_consume {r : Option Nat} {s : State} (h : InvX ab r s) (k : Nat) (hk : 0 < s.tokens k) :
+    InvX ab r { s with tokens := upd s.tokens k (s.tokens k - 1) } := by
   refine ⟨h.nodup, h.qlt, h.wlt, h.plt, h.kid, h.knodup, h.kdone, h.sync, h.fresh, h.deliv, ?_, h.run,
     h.nobad⟩
-  intro t acts ht hr hf
-  rcases h.live t acts ht hr hf with hq | hb
+  intro t acts hab ht hr hf
+  rcases h.live t acts hab ht hr hf with hq | hb
   · exact Or.inl hq
   · right
     rcases hb with ⟨k', rest, e, hm, h0⟩ | hj
@@ -79,8 +83,8 @@ theorem inv_consume {r : Option Nat} {s : State} (h : InvX r s) (k : Nat) (hk : 
     · exact Or.inr hj
 
 /-- `wait k` without a token: the running task registers its waker -/
-theorem inv_register {t : Nat} {s : State} (h : InvX (some t) s) (k : Nat) :
-    InvX (some t) { s with waiters := upd s.waiters k (s.waiters k ++ [t]) } := by
+theorem inv_register {t : Nat} {s : State} (h : InvX ab (some t) s) (k : Nat) :
+    InvX ab (some t) { s with waiters := upd s.waiters k (s.waiters k ++ [t]) } := by
   have htl : t < s.ntasks := (h.run t rfl).1
   refine ⟨h.nodup, h.qlt, ?_, h.plt, h.kid, h.knodup, h.kdone, h.sync, h.fresh, h.deliv, ?_, h.run,
     h.nobad⟩
@@ -93,8 +97,8 @@ theorem inv_register {t : Nat} {s : State} (h : InvX (some t) s) (k : Nat) :
       · exact htl
     · simp [upd_apply, e] at hx
       exact h.wlt k' x hx
-  · intro t' acts ht hr hf
-    rcases h.live t' acts ht hr hf with hq | hb
+  · intro t' acts hab ht hr hf
+    rcases h.live t' acts hab ht hr hf with hq | hb
     · exact Or.inl hq
     · right
       rcases hb with ⟨k', rest, e, hm, h0⟩ | hj
@@ -106,10 +110,10 @@ theorem inv_register {t : Nat} {s : State} (h : InvX (some t) s) (k : Nat) :
       · exact Or.inr hj
 
 /-- `signal k` -/
-theorem inv_signal {r : Option Nat} {s : State} (h : InvX r s) (k : Nat) : InvX r (signal s k) := by
+theorem inv_signal {r : Option Nat} {s : State} (h : InvX ab r s) (k : Nat) : InvX ab r (signal s k) := by
   -- the token is added
-  have h1 : InvX r (wakeAll { s with tokens := upd s.tokens k (s.tokens k + 1) } (s.waiters k)) := by
-    have h0 : InvX r { s with queue := (s.waiters k).foldl enq s.queue } := by
+  have h1 : InvX ab r (wakeAll { s with tokens := upd s.tokens k (s.tokens k + 1) } (s.waiters k)) := by
+    have h0 : InvX ab r { s with queue := (s.waiters k).foldl enq s.queue } := by
       refine inv_queue h _ (nodup_foldl_enq _ _ h.nodup) ?_
         (fun x hx => (mem_foldl_enq _ _ _).mpr (Or.inl hx))
       intro x hx
@@ -118,8 +122,8 @@ theorem inv_signal {r : Option Nat} {s : State} (h : InvX r s) (k : Nat) : InvX 
       · exact h.wlt k x hx
     refine ⟨h0.nodup, h0.qlt, h0.wlt, h0.plt, h0.kid, h0.knodup, h0.kdone, h0.sync, h0.fresh, h0.deliv,
       ?_, h0.run, h0.nobad⟩
-    intro t acts ht hr hf
-    rcases h.live t acts ht hr hf with hq | hb
+    intro t acts hab ht hr hf
+    rcases h.live t acts hab ht hr hf with hq | hb
     · exact Or.inl ((mem_foldl_enq _ _ _).mpr (Or.inl hq))
     · rcases hb with ⟨k', rest, e, hm, hz⟩ | hj
       · by_cases e' : k' = k
@@ -138,9 +142,9 @@ theorem inv_signal {r : Option Nat} {s : State} (h : InvX r s) (k : Nat) : InvX 
       · subst e; simp [upd_apply] at hx
       · simp [upd_apply, e] at hx
         exact h1.wlt k' x hx
-    · intro t acts ht hr hf
+    · intro t acts hab ht hr hf
       -- go back to the state before the signal: a task registered with `k` is now in the queue
-      rcases h.live t acts ht hr hf with hq | hb
+      rcases h.live t acts hab ht hr hf with hq | hb
       · exact Or.inl ((mem_foldl_enq _ _ _).mpr (Or.inl hq))
       · rcases hb with ⟨k', rest, e, hm, hz⟩ | hj
         · by_cases e' : k' = k
@@ -153,7 +157,7 @@ theorem inv_signal {r : Option Nat} {s : State} (h : InvX r s) (k : Nat) : InvX 
 /-! ### spawning -/
 
 /-- action `spawn` of the running task -/
-theorem inv_spawnChild {t : Nat} {s : State} (h : InvX (some t) s) : InvX (some t) (spawnChild s t) := by
+theorem inv_spawnChild {t : Nat} {s : State} (h : InvX ab (some t) s) : InvX ab (some t) (spawnChild s t) := by
   have htl : t < s.ntasks := (h.run t rfl).1
   unfold spawnChild
   cases hp : s.pool with
@@ -250,7 +254,7 @@ theorem inv_spawnChild {t : Nat} {s : State} (h : InvX (some t) s) : InvX (some 
         rw [hfr] at this
         simp [upd_apply, this]
       · simp only [upd_apply, e, if_false]; exact h.deliv c
-    · intro t' acts ht hr hf
+    · intro t' acts hab ht hr hf
       have ht' : t' < s.ntasks + 1 := ht
       have hf' : upd s.fut s.ntasks (some sc) t' = some acts := hf
       show t' ∈ s.queue ++ [s.ntasks] ∨ _
@@ -258,7 +262,7 @@ theorem inv_spawnChild {t : Nat} {s : State} (h : InvX (some t) s) : InvX (some 
       · left; simp [e]
       · simp only [upd_apply, e, if_false] at hf'
         have hne : t' ≠ t := fun e' => hr (by rw [e'])
-        rcases h.live t' acts (by omega) hr hf' with hq | hb
+        rcases h.live t' acts hab (by omega) hr hf' with hq | hb
         · left; simp [hq]
         · right
           rcases hb with ⟨k, rst, ea, hm, hz⟩ | ⟨c, cs, rst, ea, hk, hrl⟩
@@ -281,7 +285,7 @@ theorem inv_spawnChild {t : Nat} {s : State} (h : InvX (some t) s) : InvX (some 
       simp only [upd_apply, hne, if_false]; exact hf
 
 /-- `Executor::spawn` of a root by the harness (no task is running) -/
-theorem inv_spawnRoot {s : State} (h : InvX none s) (sc : Script) : InvX none (spawnNew s s.ntasks sc) := by
+theorem inv_spawnRoot {s : State} (h : InvX ab none s) (sc : Script) : InvX ab none (spawnNew s s.ntasks sc) := by
   have hfr : s.relay s.ntasks = .pending := h.fresh _ (Nat.le_refl _)
   unfold spawnNew
   refine ⟨?_, ?_, ?_, ?_, ?_, h.knodup, ?_, ?_, ?_, ?_, ?_, ?_, h.nobad⟩
@@ -341,14 +345,14 @@ theorem inv_spawnRoot {s : State} (h : InvX none s) (sc : Script) : InvX none (s
       rw [hfr] at this
       simp [upd_apply, this]
     · simp only [upd_apply, e, if_false]; exact h.deliv c
-  · intro t' acts ht hr hf
+  · intro t' acts hab ht hr hf
     have ht' : t' < s.ntasks + 1 := ht
     have hf' : upd s.fut s.ntasks (some sc) t' = some acts := hf
     show t' ∈ s.queue ++ [s.ntasks] ∨ _
     by_cases e : t' = s.ntasks
     · left; simp [e]
     · simp only [upd_apply, e, if_false] at hf'
-      rcases h.live t' acts (by omega) hr hf' with hq | hb
+      rcases h.live t' acts hab (by omega) hr hf' with hq | hb
       · left; simp [hq]
       · right
         rcases hb with ⟨k, rst, ea, hm, hz⟩ | ⟨c, cs, rst, ea, hk, hrl⟩
@@ -364,9 +368,9 @@ theorem inv_spawnRoot {s : State} (h : InvX none s) (sc : Script) : InvX none (s
 /-! ### the forwarder -/
 
 /-- `join`: the relay of the oldest child holds the value -/
-theorem inv_joinRecv {t : Nat} {s : State} (h : InvX (some t) s) (c : Nat) (cs : List Nat) (v : Nat)
+theorem inv_joinRecv {t : Nat} {s : State} (h : InvX ab (some t) s) (c : Nat) (cs : List Nat) (v : Nat)
     (hk : s.kids t = c :: cs) (hr : s.relay c = .computed v) :
-    InvX (some t) { s with
+    InvX ab (some t) { s with
       relay := upd s.relay c .done
       kids := upd s.kids t cs
       acc := upd s.acc t (s.acc t + v)
@@ -429,9 +433,9 @@ theorem inv_joinRecv {t : Nat} {s : State} (h : InvX (some t) s) (c : Nat) (cs :
       rw [hr] at this
       simp [upd_apply, this]
     · simp only [upd_apply, e, if_false]; exact h.deliv c'
-  · intro t' acts ht hrn hf
+  · intro t' acts hab ht hrn hf
     have hne : t' ≠ t := fun e' => hrn (by rw [e'])
-    rcases h.live t' acts ht hrn hf with hq | hb
+    rcases h.live t' acts hab ht hrn hf with hq | hb
     · exact Or.inl hq
     · right
       rcases hb with ⟨k, rst, ea, hm, hz⟩ | ⟨c', cs', rst, ea, hk', hrl⟩
@@ -446,9 +450,9 @@ theorem inv_joinRecv {t : Nat} {s : State} (h : InvX (some t) s) (c : Nat) (cs :
           simp only [upd_apply, hcn, if_false]; exact hrl
 
 /-- `join`: the value has not been sent; the receiver stores the waker of the running task -/
-theorem inv_joinPend {t : Nat} {s : State} (h : InvX (some t) s) (c : Nat) (cs : List Nat)
+theorem inv_joinPend {t : Nat} {s : State} (h : InvX ab (some t) s) (c : Nat) (cs : List Nat)
     (hk : s.kids t = c :: cs) (hr : (s.relay c).sent = false) :
-    InvX (some t) { s with relay := upd s.relay c (.polled t) } := by
+    InvX ab (some t) { s with relay := upd s.relay c (.polled t) } := by
   have htl : t < s.ntasks := (h.run t rfl).1
   have hck := h.kid t c (by rw [hk]; simp)
   refine ⟨h.nodup, h.qlt, h.wlt, ?_, h.kid, h.knodup, ?_, ?_, ?_, ?_, ?_, h.run, h.nobad⟩
@@ -486,9 +490,9 @@ theorem inv_joinPend {t : Nat} {s : State} (h : InvX (some t) s) (c : Nat) (cs :
         intro e'; rw [e'] at hr; simp [Relay.sent] at hr
       simp [upd_apply, this, hnd]
     · simp only [upd_apply, e, if_false]; exact h.deliv c'
-  · intro t' acts ht hrn hf
+  · intro t' acts hab ht hrn hf
     have hne : t' ≠ t := fun e' => hrn (by rw [e'])
-    rcases h.live t' acts ht hrn hf with hq | hb
+    rcases h.live t' acts hab ht hrn hf with hq | hb
     · exact Or.inl hq
     · right
       rcases hb with ⟨k, rst, ea, hm, hz⟩ | ⟨c', cs', rst, ea, hk', hrl⟩
@@ -503,7 +507,7 @@ theorem inv_joinPend {t : Nat} {s : State} (h : InvX (some t) s) (c : Nat) (cs :
 
 /-- `Sender::send` by the running task followed by the emptying of its slot: the end of a poll that
     returned `Ready`; afterwards no task is running -/
-theorem inv_complete {t : Nat} {s : State} (h : InvX (some t) s) : InvX none (complete s t) := by
+theorem inv_complete {t : Nat} {s : State} (h : InvX ab (some t) s) : InvX ab none (complete s t) := by
   obtain ⟨htl, acts, hf⟩ := h.run t rfl
   have hns : (s.relay t).sent = false := by
     have := h.sync t htl
@@ -514,8 +518,8 @@ theorem inv_complete {t : Nat} {s : State} (h : InvX (some t) s) : InvX none (co
   -- the state after `send`, still with the slot occupied, seen as "t running"
   have key : ∀ (q : List Nat), q.Nodup → (∀ x, x ∈ q → x < s.ntasks) → (∀ x, x ∈ s.queue → x ∈ q) →
       (∀ w, s.relay t = .polled w → w ∈ q) →
-      InvX none { s with queue := q, relay := upd s.relay t (.computed (value s t)),
-                         fut := upd s.fut t none } := by
+      InvX ab none { s with queue := q, relay := upd s.relay t (.computed (value s t)),
+                            fut := upd s.fut t none } := by
     intro q hn hlt hsub hwk
     refine ⟨hn, hlt, h.wlt, ?_, h.kid, h.knodup, ?_, ?_, ?_, ?_, ?_, ?_, h.nobad⟩
     · intro c w hw
@@ -547,13 +551,13 @@ theorem inv_complete {t : Nat} {s : State} (h : InvX (some t) s) : InvX none (co
           intro e'; rw [e'] at hns; simp [Relay.sent] at hns
         simp [upd_apply, this, hnd]
       · simp only [upd_apply, e, if_false]; exact h.deliv c
-    · intro t' acts' ht _ hf'
+    · intro t' acts' hab ht _ hf'
       have hf'' : upd s.fut t none t' = some acts' := hf'
       by_cases e : t' = t
       · simp [upd_apply, e] at hf''
       · simp only [upd_apply, e, if_false] at hf''
         have hrn : some t ≠ some t' := by intro e'; injection e' with e'; exact e e'.symm
-        rcases h.live t' acts' ht hrn hf'' with hq | hb
+        rcases h.live t' acts' hab ht hrn hf'' with hq | hb
         · exact Or.inl (hsub t' hq)
         · rcases hb with ⟨k, rst, ea, hm, hz⟩ | ⟨c, cs, rst, ea, hk, hrl⟩
           · exact Or.inr (Or.inl ⟨k, rst, ea, hm, hz⟩)
@@ -585,9 +589,9 @@ theorem inv_complete {t : Nat} {s : State} (h : InvX (some t) s) : InvX none (co
   | done => rw [hrl] at hns; simp [Relay.sent] at hns
 
 /-- the end of a poll that returned `Pending` with `rest` left to do -/
-theorem inv_pending {t : Nat} {s : State} (h : InvX (some t) s) (rest : Script)
+theorem inv_pending {t : Nat} {s : State} (h : InvX ab (some t) s) (rest : Script)
     (hpost : t ∈ s.queue ∨ Blocked s t rest) :
-    InvX none { s with fut := upd s.fut t (some rest) } := by
+    InvX ab none { s with fut := upd s.fut t (some rest) } := by
   obtain ⟨htl, acts, hf⟩ := h.run t rfl
   refine ⟨h.nodup, h.qlt, h.wlt, h.plt, h.kid, h.knodup, h.kdone, ?_, h.fresh, h.deliv, ?_, ?_, h.nobad⟩
   · intro c hc
@@ -601,7 +605,7 @@ theorem inv_pending {t : Nat} {s : State} (h : InvX (some t) s) (rest : Script)
       · intro h'; cases h'
       · intro h'; exact absurd (this.mpr h') (by simp)
     · simp only [upd_apply, e, if_false]; exact h.sync c hc
-  · intro t' acts' ht _ hf'
+  · intro t' acts' hab ht _ hf'
     have hf'' : upd s.fut t (some rest) t' = some acts' := hf'
     by_cases e : t' = t
     · subst e
@@ -611,19 +615,19 @@ theorem inv_pending {t : Nat} {s : State} (h : InvX (some t) s) (rest : Script)
       exact hpost
     · simp only [upd_apply, e, if_false] at hf''
       have hrn : some t ≠ some t' := by intro e'; injection e' with e'; exact e e'.symm
-      exact h.live t' acts' ht hrn hf''
+      exact h.live t' acts' hab ht hrn hf''
   · intro t' hr; cases hr
 
 /-- `Executor::step` pops the front of the queue; its task becomes the running one -/
-theorem inv_pop {s : State} (h : InvX none s) (t : Nat) (q : List Nat) (hq : s.queue = t :: q)
-    (acts : Script) (hf : s.fut t = some acts) : InvX (some t) { s with queue := q } := by
+theorem inv_pop {s : State} (h : InvX ab none s) (t : Nat) (q : List Nat) (hq : s.queue = t :: q)
+    (acts : Script) (hf : s.fut t = some acts) : InvX ab (some t) { s with queue := q } := by
   have hnd : (t :: q).Nodup := hq ▸ h.nodup
   have htl : t < s.ntasks := h.qlt t (by rw [hq]; simp)
   refine ⟨(List.nodup_cons.mp hnd).2, fun x hx => h.qlt x (by rw [hq]; exact List.mem_cons_of_mem _ hx),
     h.wlt, h.plt, h.kid, h.knodup, h.kdone, h.sync, h.fresh, h.deliv, ?_, ?_, h.nobad⟩
-  · intro t' acts' ht hr hf'
+  · intro t' acts' hab ht hr hf'
     have hne : t' ≠ t := fun e' => hr (by rw [e'])
-    rcases h.live t' acts' ht (by simp) hf' with hq' | hb
+    rcases h.live t' acts' hab ht (by simp) hf' with hq' | hb
     · left
       rw [hq] at hq'
       rcases List.mem_cons.mp hq' with e | hq'
@@ -636,14 +640,14 @@ theorem inv_pop {s : State} (h : InvX none s) (t : Nat) (q : List Nat) (hq : s.q
     exact ⟨htl, acts, hf⟩
 
 /-- popping a task whose slot is empty -/
-theorem inv_pop_noop {s : State} (h : InvX none s) (t : Nat) (q : List Nat) (hq : s.queue = t :: q)
-    (hf : s.fut t = none) : InvX none { s with queue := q } := by
+theorem inv_pop_noop {s : State} (h : InvX ab none s) (t : Nat) (q : List Nat) (hq : s.queue = t :: q)
+    (hf : s.fut t = none) : InvX ab none { s with queue := q } := by
   have hnd : (t :: q).Nodup := hq ▸ h.nodup
   refine ⟨(List.nodup_cons.mp hnd).2, fun x hx => h.qlt x (by rw [hq]; exact List.mem_cons_of_mem _ hx),
     h.wlt, h.plt, h.kid, h.knodup, h.kdone, h.sync, h.fresh, h.deliv, ?_, h.run, h.nobad⟩
-  intro t' acts' ht hr hf'
+  intro t' acts' hab ht hr hf'
   have hne : t' ≠ t := by intro e'; subst e'; rw [hf] at hf'; cases hf'
-  rcases h.live t' acts' ht hr hf' with hq' | hb
+  rcases h.live t' acts' hab ht hr hf' with hq' | hb
   · left
     rw [hq] at hq'
     rcases List.mem_cons.mp hq' with e | hq'
